@@ -20,10 +20,16 @@ Theorem C06_returned_stable : forall W ls s s' j r, wf W = true -> reachable W s
 Proof. exact returned_stable. Qed.
 Print Assumptions C06_returned_stable.
 
-(* DONE exactly when the marker pre-existed or the process was launched and exited with 0 *)
+(* the value returned is truthful: when a process left by an earlier scheduler was still running at
+   submission (adopted W j = Some v) it is v, i.e. DONE iff that process gave exit code 0 or the marker
+   exists once it has ended; otherwise DONE exactly when the marker pre-existed or the process was
+   launched and exited with 0 *)
 Theorem C06_final_truthful : forall W s j r, wf W = true -> reachable W s -> pc (jobs s j) = PReturned r ->
   st (jobs s j) = r /\
-  (r = DONE <-> (j_marker (spec W j) = true \/ ((launches (jobs s j) >= 1)%nat /\ j_code (spec W j) = 0))) /\
+  match adopted W j with
+  | Some v => r = v
+  | None => r = DONE <-> (j_marker (spec W j) = true \/ ((launches (jobs s j) >= 1)%nat /\ j_code (spec W j) = 0))
+  end /\
   (r <> DONE -> r = ERROR).
 Proof. exact final_truthful. Qed.
 Print Assumptions C06_final_truthful.
